@@ -124,26 +124,162 @@ VENTRY(h_boundary)
 // ---------------------------------------------------------------------------------------------------------------
 // source term = -div(alpha grad u) + beta u in the metric of the mapping (Poisson coefficients: alpha = 1, beta = 0).
 #include "InputFunctions/DensityProfileCoefficients/poissonCoefficients.h"
+#include "InputFunctions/DensityProfileCoefficients/sonnendruckerCoefficients.h"
+#include "InputFunctions/DensityProfileCoefficients/zoniCoefficients.h"
+#include "InputFunctions/DensityProfileCoefficients/zoniShiftedCoefficients.h"
 #include "InputFunctions/SourceTerms/cartesianR2_Poisson_CircularGeometry.h"
-#include "InputFunctions/SourceTerms/cartesianR6_Poisson_CircularGeometry.h"
-#include "InputFunctions/SourceTerms/polarR6_Poisson_CircularGeometry.h"
 #include "InputFunctions/SourceTerms/cartesianR2_Poisson_ShafranovGeometry.h"
+#include "InputFunctions/SourceTerms/cartesianR2_Poisson_CzarnyGeometry.h"
+#include "InputFunctions/SourceTerms/cartesianR2_Sonnendrucker_CircularGeometry.h"
+#include "InputFunctions/SourceTerms/cartesianR2_Sonnendrucker_ShafranovGeometry.h"
+#include "InputFunctions/SourceTerms/cartesianR2_Sonnendrucker_CzarnyGeometry.h"
+#include "InputFunctions/SourceTerms/cartesianR2_Zoni_CircularGeometry.h"
+#include "InputFunctions/SourceTerms/cartesianR2_Zoni_ShafranovGeometry.h"
+#include "InputFunctions/SourceTerms/cartesianR2_Zoni_CzarnyGeometry.h"
+#include "InputFunctions/SourceTerms/cartesianR2_ZoniShifted_CircularGeometry.h"
+#include "InputFunctions/SourceTerms/cartesianR2_ZoniShifted_ShafranovGeometry.h"
+#include "InputFunctions/SourceTerms/cartesianR2_ZoniShifted_CzarnyGeometry.h"
+#include "InputFunctions/SourceTerms/cartesianR2_SonnendruckerGyro_CircularGeometry.h"
+#include "InputFunctions/SourceTerms/cartesianR2_SonnendruckerGyro_ShafranovGeometry.h"
+#include "InputFunctions/SourceTerms/cartesianR2_SonnendruckerGyro_CzarnyGeometry.h"
+#include "InputFunctions/SourceTerms/cartesianR2_ZoniGyro_CircularGeometry.h"
+#include "InputFunctions/SourceTerms/cartesianR2_ZoniGyro_ShafranovGeometry.h"
+#include "InputFunctions/SourceTerms/cartesianR2_ZoniGyro_CzarnyGeometry.h"
+#include "InputFunctions/SourceTerms/cartesianR2_ZoniShiftedGyro_CircularGeometry.h"
+#include "InputFunctions/SourceTerms/cartesianR2_ZoniShiftedGyro_ShafranovGeometry.h"
+#include "InputFunctions/SourceTerms/cartesianR2_ZoniShiftedGyro_CzarnyGeometry.h"
+#include "InputFunctions/SourceTerms/cartesianR6_Poisson_CircularGeometry.h"
 #include "InputFunctions/SourceTerms/cartesianR6_Poisson_ShafranovGeometry.h"
+#include "InputFunctions/SourceTerms/cartesianR6_Poisson_CzarnyGeometry.h"
+#include "InputFunctions/SourceTerms/cartesianR6_Sonnendrucker_CircularGeometry.h"
+#include "InputFunctions/SourceTerms/cartesianR6_Sonnendrucker_ShafranovGeometry.h"
+#include "InputFunctions/SourceTerms/cartesianR6_Sonnendrucker_CzarnyGeometry.h"
+#include "InputFunctions/SourceTerms/cartesianR6_Zoni_CircularGeometry.h"
+#include "InputFunctions/SourceTerms/cartesianR6_Zoni_ShafranovGeometry.h"
+#include "InputFunctions/SourceTerms/cartesianR6_Zoni_CzarnyGeometry.h"
+#include "InputFunctions/SourceTerms/cartesianR6_ZoniShifted_CircularGeometry.h"
+#include "InputFunctions/SourceTerms/cartesianR6_ZoniShifted_ShafranovGeometry.h"
+#include "InputFunctions/SourceTerms/cartesianR6_ZoniShifted_CzarnyGeometry.h"
+#include "InputFunctions/SourceTerms/cartesianR6_SonnendruckerGyro_CircularGeometry.h"
+#include "InputFunctions/SourceTerms/cartesianR6_SonnendruckerGyro_ShafranovGeometry.h"
+#include "InputFunctions/SourceTerms/cartesianR6_SonnendruckerGyro_CzarnyGeometry.h"
+#include "InputFunctions/SourceTerms/cartesianR6_ZoniGyro_CircularGeometry.h"
+#include "InputFunctions/SourceTerms/cartesianR6_ZoniGyro_ShafranovGeometry.h"
+#include "InputFunctions/SourceTerms/cartesianR6_ZoniGyro_CzarnyGeometry.h"
+#include "InputFunctions/SourceTerms/cartesianR6_ZoniShiftedGyro_CircularGeometry.h"
+#include "InputFunctions/SourceTerms/cartesianR6_ZoniShiftedGyro_ShafranovGeometry.h"
+#include "InputFunctions/SourceTerms/cartesianR6_ZoniShiftedGyro_CzarnyGeometry.h"
+#include "InputFunctions/SourceTerms/polarR6_Poisson_CircularGeometry.h"
 #include "InputFunctions/SourceTerms/polarR6_Poisson_ShafranovGeometry.h"
+#include "InputFunctions/SourceTerms/polarR6_Poisson_CzarnyGeometry.h"
+#include "InputFunctions/SourceTerms/polarR6_Sonnendrucker_CircularGeometry.h"
+#include "InputFunctions/SourceTerms/polarR6_Sonnendrucker_ShafranovGeometry.h"
+#include "InputFunctions/SourceTerms/polarR6_Sonnendrucker_CzarnyGeometry.h"
+#include "InputFunctions/SourceTerms/polarR6_Zoni_CircularGeometry.h"
+#include "InputFunctions/SourceTerms/polarR6_Zoni_ShafranovGeometry.h"
+#include "InputFunctions/SourceTerms/polarR6_Zoni_CzarnyGeometry.h"
+#include "InputFunctions/SourceTerms/polarR6_ZoniShifted_CircularGeometry.h"
+#include "InputFunctions/SourceTerms/polarR6_ZoniShifted_ShafranovGeometry.h"
+#include "InputFunctions/SourceTerms/polarR6_ZoniShifted_CzarnyGeometry.h"
+#include "InputFunctions/SourceTerms/polarR6_SonnendruckerGyro_CircularGeometry.h"
+#include "InputFunctions/SourceTerms/polarR6_SonnendruckerGyro_ShafranovGeometry.h"
+#include "InputFunctions/SourceTerms/polarR6_SonnendruckerGyro_CzarnyGeometry.h"
+#include "InputFunctions/SourceTerms/polarR6_ZoniGyro_CircularGeometry.h"
+#include "InputFunctions/SourceTerms/polarR6_ZoniGyro_ShafranovGeometry.h"
+#include "InputFunctions/SourceTerms/polarR6_ZoniGyro_CzarnyGeometry.h"
+#include "InputFunctions/SourceTerms/polarR6_ZoniShiftedGyro_CircularGeometry.h"
+#include "InputFunctions/SourceTerms/polarR6_ZoniShiftedGyro_ShafranovGeometry.h"
+#include "InputFunctions/SourceTerms/polarR6_ZoniShiftedGyro_CzarnyGeometry.h"
 
 struct Problem { std::unique_ptr<DomainGeometry> G; std::unique_ptr<ExactSolution> U; std::unique_ptr<SourceTerm> F; std::unique_ptr<DensityProfileCoefficients> P; };
-static Problem problem(int pr, int g)
+// pr: 0 CartesianR2, 1 CartesianR6, 2 PolarR6; g: 0 Circular, 1 Shafranov, 2 Czarny;
+// prof: 0 Poisson, 1 Sonnendrucker, 2 Zoni, 3 ZoniShifted, 4 SonnendruckerGyro, 5 ZoniGyro, 6 ZoniShiftedGyro
+static Problem problem(int pr, int g, int prof = 0)
 {
-    const double Rmax = 1.3, k = 0.3, d = 0.2;
+    const double Rmax = 1.3, k = 0.3, d = 0.2, eps = 0.3, e = 1.4;
     Problem p;
-    p.P = std::make_unique<PoissonCoefficients>(Rmax, 0.0);
-    p.G = geometry(g, Rmax, k, d);
-    if (pr == 0 && g == 0) { p.U = std::make_unique<CartesianR2_CircularGeometry>(Rmax); p.F = std::make_unique<CartesianR2_Poisson_CircularGeometry>(Rmax); }
-    if (pr == 1 && g == 0) { p.U = std::make_unique<CartesianR6_CircularGeometry>(Rmax); p.F = std::make_unique<CartesianR6_Poisson_CircularGeometry>(Rmax); }
-    if (pr == 2 && g == 0) { p.U = std::make_unique<PolarR6_CircularGeometry>(Rmax); p.F = std::make_unique<PolarR6_Poisson_CircularGeometry>(Rmax); }
-    if (pr == 0 && g == 1) { p.U = std::make_unique<CartesianR2_ShafranovGeometry>(Rmax, k, d); p.F = std::make_unique<CartesianR2_Poisson_ShafranovGeometry>(Rmax, k, d); }
-    if (pr == 1 && g == 1) { p.U = std::make_unique<CartesianR6_ShafranovGeometry>(Rmax, k, d); p.F = std::make_unique<CartesianR6_Poisson_ShafranovGeometry>(Rmax, k, d); }
-    if (pr == 2 && g == 1) { p.U = std::make_unique<PolarR6_ShafranovGeometry>(Rmax, k, d); p.F = std::make_unique<PolarR6_Poisson_ShafranovGeometry>(Rmax, k, d); }
+    switch (prof) {
+    case 0: p.P = std::make_unique<PoissonCoefficients>(Rmax, 0.0); break;
+    case 1: p.P = std::make_unique<SonnendruckerCoefficients>(Rmax, 0.0); break;
+    case 2: p.P = std::make_unique<ZoniCoefficients>(Rmax, 0.0); break;
+    case 3: p.P = std::make_unique<ZoniShiftedCoefficients>(Rmax, 0.0); break;
+    case 4: p.P = std::make_unique<SonnendruckerGyroCoefficients>(Rmax, 0.0); break;
+    case 5: p.P = std::make_unique<ZoniGyroCoefficients>(Rmax, 0.0); break;
+    case 6: p.P = std::make_unique<ZoniShiftedGyroCoefficients>(Rmax, 0.0); break;
+    }
+    p.G = geometry(g, Rmax, g == 1 ? k : eps, g == 1 ? d : e);
+    if (pr == 0 && g == 0) p.U = std::make_unique<CartesianR2_CircularGeometry>(Rmax);
+    if (pr == 0 && g == 0 && prof == 0) p.F = std::make_unique<CartesianR2_Poisson_CircularGeometry>(Rmax);
+    if (pr == 0 && g == 0 && prof == 1) p.F = std::make_unique<CartesianR2_Sonnendrucker_CircularGeometry>(Rmax);
+    if (pr == 0 && g == 0 && prof == 2) p.F = std::make_unique<CartesianR2_Zoni_CircularGeometry>(Rmax);
+    if (pr == 0 && g == 0 && prof == 3) p.F = std::make_unique<CartesianR2_ZoniShifted_CircularGeometry>(Rmax);
+    if (pr == 0 && g == 0 && prof == 4) p.F = std::make_unique<CartesianR2_SonnendruckerGyro_CircularGeometry>(Rmax);
+    if (pr == 0 && g == 0 && prof == 5) p.F = std::make_unique<CartesianR2_ZoniGyro_CircularGeometry>(Rmax);
+    if (pr == 0 && g == 0 && prof == 6) p.F = std::make_unique<CartesianR2_ZoniShiftedGyro_CircularGeometry>(Rmax);
+    if (pr == 0 && g == 1) p.U = std::make_unique<CartesianR2_ShafranovGeometry>(Rmax, k, d);
+    if (pr == 0 && g == 1 && prof == 0) p.F = std::make_unique<CartesianR2_Poisson_ShafranovGeometry>(Rmax, k, d);
+    if (pr == 0 && g == 1 && prof == 1) p.F = std::make_unique<CartesianR2_Sonnendrucker_ShafranovGeometry>(Rmax, k, d);
+    if (pr == 0 && g == 1 && prof == 2) p.F = std::make_unique<CartesianR2_Zoni_ShafranovGeometry>(Rmax, k, d);
+    if (pr == 0 && g == 1 && prof == 3) p.F = std::make_unique<CartesianR2_ZoniShifted_ShafranovGeometry>(Rmax, k, d);
+    if (pr == 0 && g == 1 && prof == 4) p.F = std::make_unique<CartesianR2_SonnendruckerGyro_ShafranovGeometry>(Rmax, k, d);
+    if (pr == 0 && g == 1 && prof == 5) p.F = std::make_unique<CartesianR2_ZoniGyro_ShafranovGeometry>(Rmax, k, d);
+    if (pr == 0 && g == 1 && prof == 6) p.F = std::make_unique<CartesianR2_ZoniShiftedGyro_ShafranovGeometry>(Rmax, k, d);
+    if (pr == 0 && g == 2) p.U = std::make_unique<CartesianR2_CzarnyGeometry>(Rmax, eps, e);
+    if (pr == 0 && g == 2 && prof == 0) p.F = std::make_unique<CartesianR2_Poisson_CzarnyGeometry>(Rmax, eps, e);
+    if (pr == 0 && g == 2 && prof == 1) p.F = std::make_unique<CartesianR2_Sonnendrucker_CzarnyGeometry>(Rmax, eps, e);
+    if (pr == 0 && g == 2 && prof == 2) p.F = std::make_unique<CartesianR2_Zoni_CzarnyGeometry>(Rmax, eps, e);
+    if (pr == 0 && g == 2 && prof == 3) p.F = std::make_unique<CartesianR2_ZoniShifted_CzarnyGeometry>(Rmax, eps, e);
+    if (pr == 0 && g == 2 && prof == 4) p.F = std::make_unique<CartesianR2_SonnendruckerGyro_CzarnyGeometry>(Rmax, eps, e);
+    if (pr == 0 && g == 2 && prof == 5) p.F = std::make_unique<CartesianR2_ZoniGyro_CzarnyGeometry>(Rmax, eps, e);
+    if (pr == 0 && g == 2 && prof == 6) p.F = std::make_unique<CartesianR2_ZoniShiftedGyro_CzarnyGeometry>(Rmax, eps, e);
+    if (pr == 1 && g == 0) p.U = std::make_unique<CartesianR6_CircularGeometry>(Rmax);
+    if (pr == 1 && g == 0 && prof == 0) p.F = std::make_unique<CartesianR6_Poisson_CircularGeometry>(Rmax);
+    if (pr == 1 && g == 0 && prof == 1) p.F = std::make_unique<CartesianR6_Sonnendrucker_CircularGeometry>(Rmax);
+    if (pr == 1 && g == 0 && prof == 2) p.F = std::make_unique<CartesianR6_Zoni_CircularGeometry>(Rmax);
+    if (pr == 1 && g == 0 && prof == 3) p.F = std::make_unique<CartesianR6_ZoniShifted_CircularGeometry>(Rmax);
+    if (pr == 1 && g == 0 && prof == 4) p.F = std::make_unique<CartesianR6_SonnendruckerGyro_CircularGeometry>(Rmax);
+    if (pr == 1 && g == 0 && prof == 5) p.F = std::make_unique<CartesianR6_ZoniGyro_CircularGeometry>(Rmax);
+    if (pr == 1 && g == 0 && prof == 6) p.F = std::make_unique<CartesianR6_ZoniShiftedGyro_CircularGeometry>(Rmax);
+    if (pr == 1 && g == 1) p.U = std::make_unique<CartesianR6_ShafranovGeometry>(Rmax, k, d);
+    if (pr == 1 && g == 1 && prof == 0) p.F = std::make_unique<CartesianR6_Poisson_ShafranovGeometry>(Rmax, k, d);
+    if (pr == 1 && g == 1 && prof == 1) p.F = std::make_unique<CartesianR6_Sonnendrucker_ShafranovGeometry>(Rmax, k, d);
+    if (pr == 1 && g == 1 && prof == 2) p.F = std::make_unique<CartesianR6_Zoni_ShafranovGeometry>(Rmax, k, d);
+    if (pr == 1 && g == 1 && prof == 3) p.F = std::make_unique<CartesianR6_ZoniShifted_ShafranovGeometry>(Rmax, k, d);
+    if (pr == 1 && g == 1 && prof == 4) p.F = std::make_unique<CartesianR6_SonnendruckerGyro_ShafranovGeometry>(Rmax, k, d);
+    if (pr == 1 && g == 1 && prof == 5) p.F = std::make_unique<CartesianR6_ZoniGyro_ShafranovGeometry>(Rmax, k, d);
+    if (pr == 1 && g == 1 && prof == 6) p.F = std::make_unique<CartesianR6_ZoniShiftedGyro_ShafranovGeometry>(Rmax, k, d);
+    if (pr == 1 && g == 2) p.U = std::make_unique<CartesianR6_CzarnyGeometry>(Rmax, eps, e);
+    if (pr == 1 && g == 2 && prof == 0) p.F = std::make_unique<CartesianR6_Poisson_CzarnyGeometry>(Rmax, eps, e);
+    if (pr == 1 && g == 2 && prof == 1) p.F = std::make_unique<CartesianR6_Sonnendrucker_CzarnyGeometry>(Rmax, eps, e);
+    if (pr == 1 && g == 2 && prof == 2) p.F = std::make_unique<CartesianR6_Zoni_CzarnyGeometry>(Rmax, eps, e);
+    if (pr == 1 && g == 2 && prof == 3) p.F = std::make_unique<CartesianR6_ZoniShifted_CzarnyGeometry>(Rmax, eps, e);
+    if (pr == 1 && g == 2 && prof == 4) p.F = std::make_unique<CartesianR6_SonnendruckerGyro_CzarnyGeometry>(Rmax, eps, e);
+    if (pr == 1 && g == 2 && prof == 5) p.F = std::make_unique<CartesianR6_ZoniGyro_CzarnyGeometry>(Rmax, eps, e);
+    if (pr == 1 && g == 2 && prof == 6) p.F = std::make_unique<CartesianR6_ZoniShiftedGyro_CzarnyGeometry>(Rmax, eps, e);
+    if (pr == 2 && g == 0) p.U = std::make_unique<PolarR6_CircularGeometry>(Rmax);
+    if (pr == 2 && g == 0 && prof == 0) p.F = std::make_unique<PolarR6_Poisson_CircularGeometry>(Rmax);
+    if (pr == 2 && g == 0 && prof == 1) p.F = std::make_unique<PolarR6_Sonnendrucker_CircularGeometry>(Rmax);
+    if (pr == 2 && g == 0 && prof == 2) p.F = std::make_unique<PolarR6_Zoni_CircularGeometry>(Rmax);
+    if (pr == 2 && g == 0 && prof == 3) p.F = std::make_unique<PolarR6_ZoniShifted_CircularGeometry>(Rmax);
+    if (pr == 2 && g == 0 && prof == 4) p.F = std::make_unique<PolarR6_SonnendruckerGyro_CircularGeometry>(Rmax);
+    if (pr == 2 && g == 0 && prof == 5) p.F = std::make_unique<PolarR6_ZoniGyro_CircularGeometry>(Rmax);
+    if (pr == 2 && g == 0 && prof == 6) p.F = std::make_unique<PolarR6_ZoniShiftedGyro_CircularGeometry>(Rmax);
+    if (pr == 2 && g == 1) p.U = std::make_unique<PolarR6_ShafranovGeometry>(Rmax, k, d);
+    if (pr == 2 && g == 1 && prof == 0) p.F = std::make_unique<PolarR6_Poisson_ShafranovGeometry>(Rmax, k, d);
+    if (pr == 2 && g == 1 && prof == 1) p.F = std::make_unique<PolarR6_Sonnendrucker_ShafranovGeometry>(Rmax, k, d);
+    if (pr == 2 && g == 1 && prof == 2) p.F = std::make_unique<PolarR6_Zoni_ShafranovGeometry>(Rmax, k, d);
+    if (pr == 2 && g == 1 && prof == 3) p.F = std::make_unique<PolarR6_ZoniShifted_ShafranovGeometry>(Rmax, k, d);
+    if (pr == 2 && g == 1 && prof == 4) p.F = std::make_unique<PolarR6_SonnendruckerGyro_ShafranovGeometry>(Rmax, k, d);
+    if (pr == 2 && g == 1 && prof == 5) p.F = std::make_unique<PolarR6_ZoniGyro_ShafranovGeometry>(Rmax, k, d);
+    if (pr == 2 && g == 1 && prof == 6) p.F = std::make_unique<PolarR6_ZoniShiftedGyro_ShafranovGeometry>(Rmax, k, d);
+    if (pr == 2 && g == 2) p.U = std::make_unique<PolarR6_CzarnyGeometry>(Rmax, eps, e);
+    if (pr == 2 && g == 2 && prof == 0) p.F = std::make_unique<PolarR6_Poisson_CzarnyGeometry>(Rmax, eps, e);
+    if (pr == 2 && g == 2 && prof == 1) p.F = std::make_unique<PolarR6_Sonnendrucker_CzarnyGeometry>(Rmax, eps, e);
+    if (pr == 2 && g == 2 && prof == 2) p.F = std::make_unique<PolarR6_Zoni_CzarnyGeometry>(Rmax, eps, e);
+    if (pr == 2 && g == 2 && prof == 3) p.F = std::make_unique<PolarR6_ZoniShifted_CzarnyGeometry>(Rmax, eps, e);
+    if (pr == 2 && g == 2 && prof == 4) p.F = std::make_unique<PolarR6_SonnendruckerGyro_CzarnyGeometry>(Rmax, eps, e);
+    if (pr == 2 && g == 2 && prof == 5) p.F = std::make_unique<PolarR6_ZoniGyro_CzarnyGeometry>(Rmax, eps, e);
+    if (pr == 2 && g == 2 && prof == 6) p.F = std::make_unique<PolarR6_ZoniShiftedGyro_CzarnyGeometry>(Rmax, eps, e);
     return p;
 }
 // flux components at a point; du/dr and du/dtheta are supplied (formal derivatives in the engine, finite differences natively)
@@ -157,10 +293,10 @@ static void fluxes(const Problem& p, double r, double th, double s, double c, do
     fr = Arr * ur + Art * ut;
     ft = Art * ur + Att * ut;
 }
-// a: problem (0 CartesianR2, 1 CartesianR6, 2 PolarR6), geometry (0 Circular, 1 Shafranov)
+// a: problem (0 CartesianR2, 1 CartesianR6, 2 PolarR6), geometry (0 Circular, 1 Shafranov, 2 Czarny), profile (0..6, see problem())
 VENTRY(h_source_term)
 {
-    Problem p = problem(a[0], a[1]);
+    Problem p = problem(a[0], a[1], a[2]);
     Pt q = point(false);
     vreach("classes-built");
     const double rhs = p.F->rhs_f(q.r, q.th, q.s, q.c);
@@ -169,20 +305,22 @@ VENTRY(h_source_term)
         double fr, ft, adet;
         fluxes(p, q.r, q.th, q.s, q.c, vdiff(u, "r"), vdiff(u, "theta"), fr, ft, adet);
         const double lhs = 0.0 - (vdiff(fr, "r") + vdiff(ft, "theta")) / adet + p.P->beta(q.r) * u;
-        vcheck_eq_fd(lhs, rhs, "source-term=-div(alpha*grad(u))+beta*u", a[0] * 4 + a[1], 0.0);
+        vcheck_eq_fd(lhs, rhs, "source-term=-div(alpha*grad(u))+beta*u", a[0] * 32 + a[1] * 8 + a[2], 0.0);
         return;
     }
-    // native: the same operator by nested central differences
+    // native: the same operator by nested fourth-order central differences (truncation ~ h^4: far below the tolerance of the comparison)
     auto U = [&](double r, double t) { return p.U->exact_solution(r, t, sin(t), cos(t)); };
-    const double h = 1e-4, H = 1e-3;
+    const double h = 1e-3, H = 2e-3;
+    auto D4 = [](auto&& f, double x, double d) { return (-f(x + 2 * d) + 8.0 * f(x + d) - 8.0 * f(x - d) + f(x - 2 * d)) / (12.0 * d); };
     auto FL = [&](double r, double t, bool radial) {
         double fr, ft, adet;
-        fluxes(p, r, t, sin(t), cos(t), (U(r + h, t) - U(r - h, t)) / (2 * h), (U(r, t + h) - U(r, t - h)) / (2 * h), fr, ft, adet);
+        const double ur = D4([&](double x) { return U(x, t); }, r, h), ut = D4([&](double x) { return U(r, x); }, t, h);
+        fluxes(p, r, t, sin(t), cos(t), ur, ut, fr, ft, adet);
         return radial ? fr : ft;
     };
     double fr0, ft0, adet;
     fluxes(p, q.r, q.th, q.s, q.c, 0.0, 0.0, fr0, ft0, adet);
-    const double div = (FL(q.r + H, q.th, true) - FL(q.r - H, q.th, true)) / (2 * H) + (FL(q.r, q.th + H, false) - FL(q.r, q.th - H, false)) / (2 * H);
+    const double div = D4([&](double x) { return FL(x, q.th, true); }, q.r, H) + D4([&](double x) { return FL(q.r, x, false); }, q.th, H);
     const double fd = 0.0 - div / adet + p.P->beta(q.r) * U(q.r, q.th);
-    vcheck_eq_fd(0.0, rhs, "source-term=-div(alpha*grad(u))+beta*u", a[0] * 4 + a[1], fd);
+    vcheck_eq_fd(0.0, rhs, "source-term=-div(alpha*grad(u))+beta*u", a[0] * 32 + a[1] * 8 + a[2], fd);
 }
